@@ -404,6 +404,11 @@ next:
 		if rule.Action != nil {
 			groups := make([]string, 0, len(match)/2)
 			for i := 0; i < len(match); i += 2 {
+				if match[i] < 0 {
+					// The group did not participate in the match.
+					groups = append(groups, "")
+					continue
+				}
 				groups = append(groups, l.data[match[i]:match[i+1]])
 			}
 			if err := rule.Action.applyAction(l, groups); err != nil {
